@@ -46,6 +46,15 @@ SPECS = {
                 floor=0.20,
                 rule="(1) boundary-directed messages of all 14 types, evaluated after a protobuf marshal/unmarshal round trip: byte lengths {0,1,max-1,max,max+1,2*max} built from 1-4 byte runes, control characters and invalid UTF-8; charset edges; DIDs with 31/32/44/45 base58 characters, excluded characters, wrong method, upper-case prefix, trailing newline; documents built from valid parts with 0-2 injected defects out of 45; address pool (valid, upper-case, 1- and 255-byte, wrong prefix, bad checksum, mixed case, empty, blank, 256-byte); oracle = independent re-implementation of the documented limits, ValidateBasic()==nil iff oracle accepts, three classes generated but not asserted (document without id, present-but-empty @context, non-ASCII white space in method ids); non-trivial = at most one field off its valid class and the verdict is asserted. (2) the pipeline half: see TestC16Pipeline's rule in the label distribution",
                 assumptions=["sdk.AccAddressFromBech32 decides address well-formedness (SDK, trusted)", "protobuf wire encoding of the generated types"]),
+    "C17": dict(units=[dict(test="TestC17Direct", quick=160000, thorough=4000000, timeout=1800), dict(test="TestC17KeyStore", quick=24000, thorough=600000, timeout=1800),
+                       machine("TestC17Pipeline", 320, 5000, steps=30), dict(test="TestKnownC17", kind="plain", quick=1, thorough=1),
+                       dict(test="FuzzC17Msg", kind="fuzz", fuzztime=120, thorough_only=True, quick=0, thorough=1, timeout=400),
+                       dict(test="FuzzC17Query", kind="fuzz", fuzztime=120, thorough_only=True, quick=0, thorough=1, timeout=400),
+                       dict(test="FuzzC17KeyStore", kind="fuzz", fuzztime=120, thorough_only=True, quick=0, thorough=1, timeout=400),
+                       dict(test="FuzzC17Compkey", kind="fuzz", fuzztime=60, thorough_only=True, quick=0, thorough=1, timeout=400)],
+                floor=0.30,
+                rule="(1) direct calls: boundary-directed and hostile messages of all 14 types (absent sub-messages, empty/255/256/70000-byte strings, NUL, invalid UTF-8, malformed addresses) after a wire round trip: ValidateBasic, and GetSigners/GetSignBytes after successful validation, must not panic; (2) key-store files: structurally valid JSON with every parameter varied (version, cipher, kdf, prf, c, dklen in {-2^31..4096}, iv length 0..32, salt, ciphertext, matching / wrong / non-hex MAC), truncated and garbage files, any password, loaded through KeyStore.Load; (3) the pipeline machine (rule in TestC17Pipeline); (4) thorough tier: native go fuzzing of message bytes, query bytes, key-store bytes and composite-key bytes; non-trivial = the input decodes and reaches the entry point",
+                assumptions=["a panic is observed as a Go panic in a direct call or as baseapp's recovered-panic error (codespace undefined, code 111222) through ABCI", "c and dklen are clamped (<= 1024 / <= 4096) so that a slow key derivation is not mistaken for a hang"]),
     "C18": dict(units=[dict(test="TestC18", quick=320000, thorough=16000000, timeout=1800), dict(test="TestC18AolKeys", quick=80000, thorough=2000000, timeout=1800),
                        dict(test="TestC18Grid", kind="plain", quick=1, thorough=1)],
                 floor=0.10, exhaustive=False,
